@@ -22,7 +22,7 @@
    (watchdog runs over the in-memory transport and loopback QUIC), not proved. *)
 From Coq Require Import ZArith List Bool Arith String.
 Import ListNotations.
-From TF Require Import Lib.GoInt Gen.Consts Model.Gate Proofs.GateMu Gen.GateSrc Proofs.GateSrc
+From TF Require Import Lib.GoInt Gen.Consts Model.Gate Proofs.GateMu Proofs.Gate Proofs.GateLive Gen.GateSrc Proofs.GateSrc
                        Model.Path Model.PathFs Proofs.PathFs Model.Recv Proofs.Recv Proofs.RecvLive.
 Local Open Scope nat_scope.
 
@@ -34,6 +34,41 @@ Print Assumptions C03_every_step_does_work.
 Theorem C03_runs_are_bounded : forall evs s s', grun s evs = Some s' -> length evs + mu s' <= mu s.
 Proof. exact grun_length. Qed.
 Print Assumptions C03_runs_are_bounded.
+
+(* no deadlock: whatever the numbers of files, chunks and streams and whatever the
+   schedule, a state of a healthy transfer is final (both sides returned
+   successfully) or somebody can move *)
+Theorem C03_no_deadlock : forall par files s,
+  1 <= par -> NoDup (map fst files) ->
+  reachable par false files s ->
+  gfinal s = true \/ exists e s', gstep s e = Some s'.
+Proof. exact gate_progress. Qed.
+Print Assumptions C03_no_deadlock.
+
+(* hence every run that cannot be extended has ended with both sides successful,
+   after at most mu(initial state) events *)
+Theorem C03_maximal_runs_succeed : forall par files evs s,
+  1 <= par -> NoDup (map fst files) ->
+  grun (ginit par false files) evs = Some s ->
+  (forall e, gstep s e = None) ->
+  gfinal s = true /\ length evs <= mu (ginit par false files).
+Proof. exact maximal_runs_succeed. Qed.
+Print Assumptions C03_maximal_runs_succeed.
+
+(* ... and from every reachable state the transfer can be completed, within the
+   work left *)
+Theorem C03_can_always_finish : forall par files s,
+  1 <= par -> NoDup (map fst files) -> reachable par false files s ->
+  exists evs s', grun s evs = Some s' /\ gfinal s' = true /\ length evs <= mu s.
+Proof. exact can_always_finish. Qed.
+Print Assumptions C03_can_always_finish.
+
+(* a finished transfer has nothing pending or in flight and every file acknowledged *)
+Theorem C03_final_all_acked : forall par files s,
+  1 <= par -> NoDup (map fst files) -> reachable par false files s -> gfinal s = true ->
+  g_pending s = [] /\ g_active s = [] /\ length (g_acked s) = length files /\ g_data s = [] /\ g_s2r s = [].
+Proof. exact gate_final_all_acked. Qed.
+Print Assumptions C03_final_all_acked.
 
 Example C03_gated_receiver_deadlocks_refuted :
   exists evs s, grun (ginit 2 true [(0, 1)]) evs = Some s /\ stuck s = true.
